@@ -12,6 +12,7 @@ A program spec:
   E = ["lit", enc] | ["param", i] | ["local", i] | ["var", NAME]
 """
 import copy
+import re
 import os
 
 import values as V
@@ -82,6 +83,8 @@ def expr_src(f, e, mod):
     if k == "local":
         return f"x{e[1]}"
     if k == "var":
+        return e[1]
+    if k == "computed":
         return e[1]
     raise ValueError(k)
 
@@ -277,6 +280,8 @@ def coq_expr(f, e):
     if k == "var":
         tracked = [n for n in sorted(f.get("reads", []))]
         return f"(EVar {tracked.index(e[1])})"
+    if k == "computed":
+        return f"(ELit {V.to_coq(e[2])})"
     raise ValueError(k)
 
 
@@ -380,6 +385,12 @@ COMP_VARS = ["w", "n", "item"]
 DOC_TITLES = ["Report", "Summary v1", "Weekly # totals"]
 
 
+def computed_spellings(n):
+    """Source texts without names that are not one ast.Constant, with the encoded value each evaluates to (n: int >= 0)."""
+    return [(f"+{n}", V.i_(n)), (f"-(-{n})", V.i_(n)), (f"({n} + 0)", V.i_(n)), (f"~{n}", V.i_(-n - 1)), (f"not {n}", ["bool", not n]),
+            (f"({n} + 1)", V.i_(n + 1)), (f"-(+{n})", V.i_(-n))]
+
+
 def decorate_text(prog, rng):
     """Text features of function bodies that do not change what runs: comments, multi-line string literals containing '#',
     comprehensions.  Drawn from a generator of its own so that the shape of the generated programs is unchanged."""
@@ -392,6 +403,18 @@ def decorate_text(prog, rng):
                 f["comment"] = rng.choice(["note", "TODO: check 'x' # twice"])
             if rng.random() < 0.2:
                 f["comp"] = rng.choice(COMP_VARS)
+            # literal arguments written as an expression with an operator (same value, but not one constant for the analysis)
+            for st in f["stmts"]:
+                for lst in ([st.get("pos"), st.get("args")] + [[kv] for kv in []]):
+                    for j, e in enumerate(lst or []):
+                        if e[0] == "lit" and e[1][0] == "int" and int(e[1][1]) >= 0 and rng.random() < 0.7:
+                            src, val = rng.choice(computed_spellings(int(e[1][1]))[:3])
+                            lst[j] = ["computed", src, val]
+                for kv in st.get("kw", []) or []:
+                    e = kv[1]
+                    if e[0] == "lit" and e[1][0] == "int" and int(e[1][1]) >= 0 and rng.random() < 0.7:
+                        src, val = rng.choice(computed_spellings(int(e[1][1]))[:3])
+                        kv[1] = ["computed", src, val]
     return prog
 
 
@@ -557,6 +580,13 @@ def edit_catalogue(prog, rng):
                         new = rng.choice([v for v in LIT_VALUES if v != e[1]])
                         find_func(p2, mod, name)["stmts"][i]["pos"][j] = ["lit", new]
                         out.append(("literal", {"fn": [mod, name], "stmt": i, "pos": j}, p2))
+                    elif e[0] == "computed" and e[1][0] in "+-~":
+                        # only the operator changes (+n / ~n / -(+n)): another value is bound
+                        p2 = copy.deepcopy(prog)
+                        n = int(re.sub(r"[^0-9]", "", e[1]) or "0")
+                        src, val = [(s_, v_) for s_, v_ in computed_spellings(n) if v_ != e[2] and s_[0] in "~-" and s_ != e[1]][0]
+                        find_func(p2, mod, name)["stmts"][i]["pos"][j] = ["computed", src, val]
+                        out.append(("literal", {"fn": [mod, name], "stmt": i, "pos": j, "operator_only": True}, p2))
             elif st["k"] == "call":
                 # a literal argument of a PLAIN call (also one that binds a parameter with a default: finding F30)
                 for j, e in enumerate(st["args"]):
@@ -644,6 +674,8 @@ def coq_mexpr(e):
         return f"(MLocal {e[1]})"
     if k == "var":
         return f"(MVar {hexs(e[1])})"
+    if k == "computed":
+        return f"(MComputed {V.to_coq(e[2])})"
     raise ValueError(k)
 
 
